@@ -671,7 +671,16 @@ def handleCyc : List String → Option String
   | ["doc", "(", "cyc", _, ")"] => some "1 finite-document"
   | _ => none
 
+/-- schema types without a model (`c07_unmodelled_gap`): the run judges them on the implementation alone. -/
+def handleUnmodelled : List String → Option String
+  | "udoc" :: _ => some "unmodelled"
+  | "uinst" :: _ => some "unmodelled"
+  | _ => none
+
 def handle (ts : List String) : String :=
+  match handleUnmodelled ts with
+  | some r => r
+  | none =>
   match handleRefs ts with
   | some r => r
   | none =>
